@@ -44,6 +44,7 @@ type Case struct {
 	Pad     int        `json:"pad,omitempty"`    // the value is preceded by a string member of this many bytes (large outputs, flush thresholds)
 	Poison  bool       `json:"poison,omitempty"` // a MarshalWrite that fails half way runs first (pooled encoder state)
 	Plain   bool       `json:"plain,omitempty"`  // writers are plain io.Writers instead of *bytes.Buffer
+	Rep     int        `json:"rep,omitempty"`    // the value is marshaled as a slice of this many copies (every part of it meets every fill level of the output buffer)
 }
 
 var marshalOptNames = []string{
@@ -88,6 +89,9 @@ func genCase(user bool) func(t *rapid.T) Case {
 		c.Desc = tv.GenDesc(t, cfg)
 		if rapid.IntRange(0, 7).Draw(t, "pad?") == 0 {
 			c.Pad = rapid.SampledFrom([]int{1, 40, 200, 3000, 4050, 4090, 4096, 4100, 6000, 20000}).Draw(t, "pad")
+		}
+		if rapid.IntRange(0, 11).Draw(t, "rep?") == 0 {
+			c.Rep = rapid.SampledFrom([]int{2, 9, 50, 300}).Draw(t, "rep")
 		}
 		c.Poison = rapid.IntRange(0, 5).Draw(t, "poison") == 0
 		c.Plain = rapid.Bool().Draw(t, "plain")
@@ -265,6 +269,16 @@ func Run(c Case) error {
 		pv.Field(1).Set(v)
 		v = pv
 		in = v.Interface()
+	}
+	if c.Rep > 0 {
+		n := min(c.Rep, 300)
+		sl := reflect.MakeSlice(reflect.SliceOf(v.Type()), n, n)
+		for i := 0; i < n; i++ {
+			sl.Index(i).Set(v)
+		}
+		v = sl
+		in = v.Interface()
+		rec.Class("repeated-value")
 	}
 	if c.Poison {
 		// a MarshalWrite to a plain writer that fails after part of the output was buffered
